@@ -20,6 +20,20 @@ CHECKS = {
         note=NOTE_COMMON + "Outside: lists longer than the bound, numeric spellings (C01), tan at its poles."),
 }
 
+CHECKS["C11"] = dict(
+    text="Exhaustive over the 10 align values x {absent, meet, slice} (+ preserveAspectRatio absent): with element position/size, viewBox, ppi and caller "
+         "sizes all symbolic, the matrix of the library's transform string is proved equal to the SVG 2 8.2 algorithm, and the inside/over, touching and "
+         "alignment facts are proved on the library's matrix directly; through Viewbox.viewbox_transform, Viewbox(...).transform and the real SVG.parse "
+         "(sizes from attributes with units, percentages, caller width/height, viewBox default); incomplete viewBox gives identity; zero sizes disable rendering.",
+    ref="DESIGN.md 4/C11",
+    note=NOTE_COMMON + "Outside: the 12-decimal formatting of the transform string; nested svg depth > 2.")
+CHECKS["C12"] = dict(
+    text="Every unit's value() is proved against exact CSS ratios for all amounts/ppi/references/font metrics/viewBoxes (1e-6 relative band for the library's "
+         "0.0393701 in/mm constant); unresolved lengths stay Length; all 196 ordered unit pairs x {+,-,/,<,<=,>,>=,==,!=} are proved to agree with the same "
+         "operation on resolved values (ValueError accepted only across unit families); unary ops, copies and to_mm/to_cm/to_inch likewise.",
+    ref="DESIGN.md 4/C12",
+    note=NOTE_COMMON + "Outside: units beyond the 14 listed; equality across inch/metric when values are exactly equal; division by a zero length.")
+
 NOT_APPLICABLE = {
 }
 
